@@ -28,7 +28,7 @@ func init() {
 			os.MkdirAll(d, 0o755)
 			p.Env = []string{"GORACE=halt_on_error=0 history_size=3 log_path=" + d + "/c06"}
 		},
-		Post: func(p *Prop) { os.RemoveAll(fmt.Sprintf("%s/work/race/%d", verifDir, os.Getpid())) },
+		Post:  func(p *Prop) { os.RemoveAll(fmt.Sprintf("%s/work/race/%d", verifDir, os.Getpid())) },
 		Known: knownC06,
 		Run:   runC06})
 }
